@@ -67,3 +67,42 @@ pub fn tick(args: &[&str]) -> String {
         _ => "BADCASE".into(),
     }
 }
+
+/// REALNOW <n> -> OK | OK BAD <unix ms before> <dtn_time_now()> <unix ms after>
+/// The REAL clock (no hook active): n times, dtn_time_now() is bracketed by two SystemTime readings taken by the harness;
+/// floor(before) - offset <= answer <= floor(after) - offset must hold (samples during which the system clock stepped back are skipped).
+pub fn realnow(args: &[&str]) -> String {
+    let n = match args {
+        [t] => match get_u64(t) {
+            Some(n) if n <= 10_000_000 => n,
+            _ => return "BADCASE".into(),
+        },
+        _ => return "BADCASE".into(),
+    };
+    bp7::verif_hooks::set_thread_clock_ms(None);
+    bp7::verif_hooks::set_thread_clock_script(None);
+    if bp7::verif_hooks::clock_ms().is_some() {
+        return "SKIP".into(); // a process-wide override is active: not the real clock
+    }
+    let unix_ms = || std::time::SystemTime::now().duration_since(std::time::UNIX_EPOCH).map(|d| d.as_millis() as u64).unwrap_or(0);
+    const OFFSET: u64 = 946_684_800_000;
+    for i in 0..n {
+        if i % 64 == 0 {
+            std::thread::sleep(std::time::Duration::from_micros(137)); // drift through the sub-millisecond phases
+        }
+        let before = unix_ms();
+        let r = std::panic::catch_unwind(bp7::dtn_time_now);
+        let after = unix_ms();
+        let v = match r {
+            Ok(v) => v,
+            Err(_) => return "PANIC".into(),
+        };
+        if after < before || before < OFFSET {
+            continue;
+        }
+        if !(before - OFFSET <= v && v <= after - OFFSET) {
+            return format!("OK BAD {} {} {}", before, v, after);
+        }
+    }
+    "OK".into()
+}
